@@ -46,7 +46,7 @@ BUILT = {
          "Garbage/bit-flipped/truncated bodies, hostile stored values, malformed URLs, wall-clock jumps, metrics errors and crashes with a formatting log subscriber installed; any panic while library code runs is a violation; the same seed is re-run with storage failures switched off and requests/events must be identical.",
          "Policy/installer answers conform to their contracts; differential rule within one lifetime."),
  "C15": ("deterministic simulation; in-situ wire-shape oracle (independent encoder) on every request sent", "6.C15",
-         "Every request the state machine sends in whole-flow runs is decoded at the simulated server and compared with an independently written encoder applied to the model state. Only request shapes the state machine actually issues are covered; builder call sequences it never issues are not claimed.",
+         "Every request the state machine sends in whole-flow runs is decoded at the simulated server and compared with an independently written encoder applied to the model state. Only request shapes the state machine actually issues are covered (including the same app id added twice, via an app list with a repeated id); other builder call sequences are not claimed.",
          "App state from policy arguments (C09 checks those); versions rebuilt from configured components."),
  "C16": ("deterministic simulation; in-situ parser oracle on bytes arriving from the faulty network", "6.C16",
          "Grammar-generated documents, byzantine documents and garbage/truncated/bit-flipped/deeply nested bodies reach the parser through the state machine (CUP off); the announced decode is compared with the document or with an independent reading of the bytes; required-field removals must be rejected; no panic.",
